@@ -12,8 +12,8 @@ from __future__ import annotations
 from harness import sctp_check as S
 from harness import sctp_world as W
 
-LEAN_TARGETS = ["Aiortc.Props.C02", "Aiortc.Props.C02Drain"]
-AUDIT_PROPS = ["C02", "C02Drain"]
+LEAN_TARGETS = ["Aiortc.Props.C02", "Aiortc.Props.C02Drain", "Aiortc.Props.C02DrainPR"]
+AUDIT_PROPS = ["C02", "C02Drain", "C02DrainPR"]
 DRIVERS = ["Sctp"]
 MANIFEST = {
     "technique": "Lean 4 invariant / induction proofs over the executable line-by-line model of the SCTP send path "
@@ -61,13 +61,38 @@ MANIFEST = {
             "(2|toRx| + |toTx| + 1 + 2 (n + n (|toTx| + 2n)) + n (2 + 2 (n + 2 n^2)) + 2, n = |sentQ| + |outQ|) a state with "
             "sentQ = outQ = [], flight = 0, network empty, nothing pending, T3 off, and the receiver's cumulative TSN = old lastSacked + n "
             "(every chunk delivered). C02_drains_abstract: composed — fresh pair, ANY finite history of such moves, then the "
-            "continuation drains within the bound and the receiver's cumulative TSN covers every chunk the application ever queued.",
+            "continuation drains within the bound and the receiver's cumulative TSN covers every chunk the application ever queued. "
+            "(h) Props/C02DrainPR.lean lifts the restriction to reliable sends (system PLink: the model's Tx, the model's receiver on Rx = "
+            "_mark_received + the cumulative-TSN part of _receive_forward_tsn_chunk (C02PR_rxFwd_model), DATA and FORWARD TSN chunks and "
+            "SACKs in flight; moves as before with ANY max_retransmits / lifetime, clock ticks expire lifetimes, so _maybe_abandon, "
+            "_update_advanced_peer_ack_point and FORWARD TSN occur in the history and in the continuation). "
+            "C02PR_coherence_preserved / C02PR_reachable_coherent: CohP (lastSacked = T b k, advanced peer ack point T b f, k <= f, "
+            "FORWARD TSN needed iff k < f, sentQ ++ outQ carry T b (f+1).., receiver at T b r with k <= r <= f + |sentQ|, every FORWARD "
+            "TSN in flight <= T b f, every SACK <= T b r, a needed FORWARD TSN is scheduled or covered by T3) is preserved by EVERY "
+            "move. C02PR_step_decreases: every non-T3 step of the continuation strictly decreases phi3, which also pays for the "
+            "FORWARD TSN ping-pong of the repeat rule (a SACK behind the ack point makes _receive_sack_chunk re-send the FORWARD TSN; "
+            "SACK weight 1+2N at/beyond the ack point, 3+2N behind; the ack point only moves when a chunk leaves the queues). "
+            "C02PR_epoch: from a quiet state with the cumulative ack behind the ack point (FORWARD TSN or its SACK lost) or something "
+            "outstanding, T3 + _transmit put a FORWARD TSN for the current ack point or the first outstanding chunk into flight, and "
+            "when the network is next empty the cumulative ack has advanced. C02PR_drains_from_coherent / C02PR_drains_abstract: after "
+            "ANY finite history (reliable and partially reliable sends mixed) the continuation reaches within PLink.drainBound steps "
+            "(polynomial: degree 4 in the TSNs not yet cumulatively acked) a state with queues and network empty, nothing in flight, "
+            "T3 off, no FORWARD TSN pending or needed, lastSacked = advAck = receiver's cumulative TSN = last TSN assigned. "
+            "C02PR_only_pr_abandoned: in a queue of whole messages _maybe_abandon marks only chunks that have max_retransmits or a "
+            "lifetime. C02PR_reliable_received: every chunk of every RELIABLE message the history queued reached the receiver as a "
+            "DATA chunk (ghost list got); abandoned ones may have been skipped. C02PR_drains_both_directions: the model's endpoints "
+            "never bundle (one packet per chunk), so an association is the product of two such links; any history on either, then "
+            "both step: both drain within the larger bound.",
     "note": "C02_drains (two full endpoints, every adversarial history, bounded drain, bufferedAmount 0, everything delivered) is stated "
             "as a def and NOT proved. C02_drains_abstract proves it for the abstraction `Link` of ONE direction of reliable traffic "
             "(the model's own Tx and Rx functions, sendSack's gap blocks, DATA chunks and SACKs as separate datagram multisets) with a "
-            "polynomial bound. Still open between it and C02_drains: partial reliability (FORWARD TSN at sender and "
-            "receiver); both directions at once and bundling of SACK + DATA in one datagram; _data_channel_flush / bufferedAmount / "
-            "dcQueue; reassembly and delivery of messages to the application (the theorem ends at the receiver's cumulative TSN); "
+            "polynomial bound; C02PR_drains_abstract / C02PR_reliable_received / C02PR_drains_both_directions extend it to partially "
+            "reliable traffic (FORWARD TSN at sender and receiver) and to both directions as a product of two links. Still open between "
+            "them and C02_drains: the two halves of an endpoint share a clock, a task queue and the SACK-needed flag (here they are "
+            "independent, every chunk is answered by a SACK at once, one chunk per datagram also on reception); the stream part of "
+            "FORWARD TSN (pruning and re-sequencing of inbound streams) is outside, only its cumulative-TSN part is in; "
+            "_data_channel_flush / bufferedAmount / "
+            "dcQueue; reassembly and delivery of messages to the application (the theorems end at the set of TSNs received); "
             "handshake, shutdown, reconfig, and the endpoint glue Endpoint.step. Those are covered only by the trace correspondence plus "
             "the drain / probe oracles on the real endpoints.",
     "design_ref": "DESIGN.md §2.0, §2 C02",
@@ -84,16 +109,24 @@ ASSUMPTIONS = [
     "C02_drains_partial part 3 assumes the start state is coherent (Link.Coherent: sender invariants — proved for all reachable sender "
     "states —, receiver's cumulative TSN equal to or ahead of the sender's by < 2^31 - |misordered|, misordered set consolidated and "
     "duplicate free) with an empty network, no pending task and T3 armed, and that the chunk following the cumulative ack survives T3 "
-    "(is not abandoned, i.e. belongs to a reliable channel); it yields progress of ONE epoch (for reliable traffic the coherence "
+    "(is not abandoned, i.e. belongs to a reliable channel) and carries a TSN that was assigned, the receiver having only TSNs that "
+    "were assigned (Coherent.sent; needed since SACKs beyond the last TSN assigned are ignored); it yields progress of ONE epoch (for reliable traffic the coherence "
     "hypothesis is derived and the epoch lemma is iterated to full drain in Props/C02Drain.lean; with partial reliability it stays "
     "an assumption and one epoch)",
-    "the Link abstraction delivers one direction's DATA chunks and SACKs only; FORWARD TSN is not delivered to the receiver there",
+    "the Link abstraction (Props/C02.lean, Props/C02Drain.lean) delivers one direction's DATA chunks and SACKs only; FORWARD TSN is "
+    "delivered to the receiver in PLink (Props/C02DrainPR.lean)",
     "Props/C02Drain.lean: reliable traffic only (every send has max_retransmits = None and no lifetime: Fault.Reliable); fewer than "
     "2^31 chunks are ever queued on the association (sentTotal + 1 < 2147483648), so that serial-number comparison of any two TSNs "
     "that occur is comparison of their indices; the receiver's initial cumulative TSN is the sender's initial TSN - 1 (Link.Fresh: what "
     "INIT / INIT-ACK set up); each DATA chunk and each SACK travels in its own datagram (no bundling); the receiver answers every "
     "DATA chunk with a SACK at once (Link.deliverData; the real endpoint sets a flag and sends the SACK at the end of the datagram); "
     "bounded time = bounded number of steps of Link.step (drainBound2: cubic in |sentQ| + |outQ|, linear in the datagrams in flight)",
+    "Props/C02DrainPR.lean: no restriction on the sends; still fewer than 2^31 chunks ever queued; PLink.Fresh additionally has "
+    "advAck = lastSacked; every DATA and every FORWARD TSN chunk is answered by a SACK at once (both handlers set _sack_needed); the "
+    "receiver side of FORWARD TSN is its cumulative-TSN part (rxFwdTsn = the Rx component of Model/Sctp/Forward.lean rxFwd); `got` "
+    "(TSNs received as DATA) and `queuedBy` (chunks queued by the history) are ghost notions of the abstract system; "
+    "C02PR_drains_both_directions treats the two directions of an association as independent links (no bundling in the model's "
+    "endpoints; no shared state between an endpoint's sender half and receiver half in the abstraction)",
 ]
 TRUSTED_EXTRA = [
     "Model/Sctp/Outbound.lean, Inbound.lean, Endpoint.lean are line-by-line models, trusted up to the trace correspondence "
